@@ -372,9 +372,16 @@ def combineParamsD (j : Json) : Except String Json := do
 def genTypesD (j : Json) : Except String Json := do
   let a ← j.getObjValAs? (Array (Array Nat)) "types"
   let ts : List TypeDedup.TD := a.toList.map fun r => ⟨r.toList.drop 1, r[0]!⟩
+  let nums (l : List Nat) : Json := Json.arr (l.map fun (c : Nat) => Json.num (JsonNumber.fromNat c)).toArray
+  -- which bodies need the methods of a boilerplate generator (absent = none)
+  let needs (k : String) : Nat → Bool := match j.getObjValAs? (Array Nat) k with
+    | .ok a => fun b => a.contains b
+    | .error _ => fun _ => false
+  let bp (k : String) : Json := Json.arr ((TypeDedup.boilerplate (needs k) ts).map fun d => nums d.name).toArray
+  let extra := [("addl", bp "needAddl"), ("union", bp "needUnion"), ("both", bp "needBoth")]
   pure (match TypeDedup.generateTypes ts with
-    | .ok r => Json.mkObj [("ok", Json.arr (r.map fun d => Json.num d.body).toArray)]
-    | .error e => Json.mkObj [("error", Json.arr (e.map fun (c : Nat) => Json.num (JsonNumber.fromNat c)).toArray)])
+    | .ok r => Json.mkObj ([("ok", Json.arr (r.map fun d => Json.num d.body).toArray)] ++ extra)
+    | .error e => Json.mkObj ([("error", nums e)] ++ extra))
 
 /-- `GenerateBodyDefinitions`: media types as byte arrays with, for each, what `IsMediaTypeJson` and
 `mediaTypeToCamelCase` give (computed by Go: the model's `Env` is this table); result = one row per definition. -/
